@@ -4,7 +4,9 @@ import (
 	"crypto/sha1"
 	"encoding/json"
 	"fmt"
+	"hash/fnv"
 	"os"
+	"regexp"
 	"sort"
 	"strings"
 
@@ -157,6 +159,36 @@ type c09Run struct {
 	Trace       []string
 	Stuck       string
 	Panic       interface{}
+	// PrefixSig: the world right before the target reconcile (API objects without server-assigned ids,
+	// pending cache events per kind); a faulted run is only compared with its twin if the prefix was reproduced
+	PrefixSig  string
+	PrefixDump string
+}
+
+var c09Volatile = regexp.MustCompile(`"(uid|resourceVersion|creationTimestamp|deletionTimestamp)":"[^"]*",?`)
+
+// c09Canon: JSON of an object without server-assigned ids; the claim volumes of a pod in name order (the
+// controller adds them in its own map iteration order).
+func c09Canon(o runtime.Object) []byte {
+	if p, ok := o.(*corev1.Pod); ok {
+		p = p.DeepCopy()
+		sort.SliceStable(p.Spec.Volumes, func(i, j int) bool { return p.Spec.Volumes[i].Name < p.Spec.Volumes[j].Name })
+		o = p
+	}
+	b, _ := json.Marshal(o)
+	return c09Volatile.ReplaceAll(b, nil)
+}
+
+func c09PrefixSig(w *world.World) string {
+	h := fnv.New64a()
+	snap := w.Srv.Snap()
+	for _, res := range []simapi.Res{simapi.Sets, simapi.Pods, simapi.PVCs, simapi.Revisions} {
+		for _, o := range snap.List(res, "") {
+			h.Write(c09Canon(o))
+		}
+		fmt.Fprintf(h, "|%s pending=%d|", res, w.Pending(res))
+	}
+	return fmt.Sprintf("%x", h.Sum64())
 }
 
 func claimVolumes(p *corev1.Pod) int {
@@ -265,6 +297,16 @@ func c09Execute(w *world.World, seed int64, e c09Entry, f1, f2 *simapi.Fault) *c
 		}
 	}
 	w.ResetQueue(append([]string{key}, others...)...)
+	out.PrefixSig = c09PrefixSig(w)
+	if os.Getenv("C09_DEBUG") != "" {
+		snap := w.Srv.Snap()
+		for _, res := range []simapi.Res{simapi.Sets, simapi.Pods, simapi.PVCs, simapi.Revisions} {
+			for _, o := range snap.List(res, "") {
+				out.PrefixDump += string(c09Canon(o)) + "\n"
+			}
+			out.PrefixDump += fmt.Sprintf("|%s pending=%d|\n", res, w.Pending(res))
+		}
+	}
 	observe := func(rec *world.Record) {
 		out.Recs = append(out.Recs, rec)
 		if rec.Panic != nil {
@@ -427,6 +469,15 @@ func runC09(ctx *Ctx) *Result {
 		res.sample(2, map[string]interface{}{"corpus_entry": e.Name, "target_reconcile_calls": len(ids), "twin_trace_head": twin.Trace[:min(len(twin.Trace), 2)]})
 		check := func(run *c09Run, f1 *simapi.Fault, plan string, single bool) {
 			res.Evaluations++
+			if run.PrefixSig != twin.PrefixSig {
+				// the code under test iterates maps (claims of a pod); should that ever make the prefix of a
+				// faulted run differ from its twin's, the two are not comparable: no verdict for this plan
+				res.Stats["plans_skipped_prefix_not_reproduced"]++
+				if os.Getenv("C09_DEBUG") != "" {
+					fmt.Fprintf(os.Stderr, "C09_DEBUG prefix mismatch entry=%q plan=%s\n%s\n----\n%s\n", e.Name, plan, twin.PrefixDump, run.PrefixDump)
+				}
+				return
+			}
 			if run.Panic != nil {
 				report("panicked", fmt.Sprintf("a reconcile panicked after the fault: %v", run.Panic), plan, run)
 				return
@@ -610,6 +661,9 @@ func runC09(ctx *Ctx) *Result {
 	}
 	for k, n := range seen {
 		res.Stats["violations_"+k] = n
+	}
+	if sk := res.Stats["plans_skipped_prefix_not_reproduced"]; sk*20 > res.Evaluations {
+		res.Inconclusive = append(res.Inconclusive, fmt.Sprintf("%d of %d fault plans had no verdict because the scenario prefix was not reproduced", sk, res.Evaluations))
 	}
 	return res
 }
